@@ -251,7 +251,12 @@ class Engine(ExprMixin, CallMixin, StmtMixin):
             c = self.truth(self.ev(e.args[0], p), p)
             return self.merge(c, self.ev(e.args[1], p), self.ev(e.args[2], p))
         if fn == "canon":
-            return T.scalar(T.TUP, TH.canon(self.coerce(self.ev(e.args[0], p), T.TUP).t))
+            v = self.ev(e.args[0], p)
+            if isinstance(v.ty, T.Pair):      # canonical key of a composite record: canonicalise every node-tuple component
+                a = TH.canon(v.ty.fst(v.t)) if v.ty.a == T.TUP else v.ty.fst(v.t)
+                b = TH.canon(v.ty.snd(v.t)) if v.ty.b == T.TUP else v.ty.snd(v.t)
+                return T.scalar(v.ty, v.ty.mk(a, b))
+            return T.scalar(T.TUP, TH.canon(self.coerce(v, T.TUP).t))
         if fn == "distinct":
             return T.sv_bool(TH.distinct_t(self.ev(e.args[0], p).t))
         if fn == "strict":
@@ -323,7 +328,7 @@ class Engine(ExprMixin, CallMixin, StmtMixin):
                 name = gen.target.id
                 if isinstance(gen.iter, ast.Name) and gen.iter.id in UNIVERSES or \
                         (isinstance(gen.iter, ast.Name) and gen.iter.id == "Key"):
-                    ty = UNIVERSES.get(gen.iter.id) or self.parse_ty("Key")
+                    ty = UNIVERSES.get(gen.iter.id) or self.key_type(p)
                     x = fresh("q_" + name, ty.sort())
                     xv = T.scalar(ty, x)
                 else:
@@ -360,6 +365,17 @@ class Engine(ExprMixin, CallMixin, StmtMixin):
         if is_all:
             return T.sv_bool(z3.ForAll(vars_, z3.Implies(gd, body)))
         return T.sv_bool(z3.Exists(vars_, z3.And(gd, body)))
+
+    def key_type(self, p):
+        """The key sort of the container class the clause talks about (its `self`, else the first object in scope)."""
+        objs = [v for n, v in p.env.items() if isinstance(v.ty, T.Obj)]
+        if "self" in p.env and isinstance(p.env["self"].ty, T.Obj):
+            objs.insert(0, p.env["self"])
+        for o in objs:
+            lay = self.reg.layouts[o.ty.cls]
+            if "Key" in lay.aliases:
+                return T.parse_ty("Key", lay.aliases)
+        return self.parse_ty("Key")
 
     def eval_clauses(self, clauses, env, p, cx):
         out = {}
